@@ -155,6 +155,8 @@ def check(P: Project, R: Report) -> None:
                 return False
             if isinstance(e, ast.Name) and e.id == p0:
                 return True
+            if isinstance(e, ast.IfExp):
+                return is_input(e.body, depth + 1) and is_input(e.orelse, depth + 1)  # `s.decode("utf-8") if isinstance(s, bytes) else s`
             if ast.unparse(e) in (f"{p0}.decode('utf-8')", f"{p0}.decode('utf8')", f"{p0}.decode()", f"bytes({p0}).decode('utf-8')", f"bytes({p0}).decode('utf8')", f"bytes({p0}).decode()", f"str({p0}, 'utf-8')"):
                 return True
             # the same bytes decoded as UTF-8, whatever the bytes-like input is wrapped in: `bytes(x).decode("utf-8")`
